@@ -209,6 +209,9 @@ def mm(op, input, other):
             )
             and input.qtype == qint8
             and other.qtype == qint8
+            # Per-axis scales can only be factored out of the product along the non-contracted dimensions
+            and input.axis in (None, 0)
+            and other.axis in (None, -1)
             and n > 16
             and n % 8 == 0
             and m % 8 == 0
